@@ -7,6 +7,7 @@ import (
 	"encoding/xml"
 	"fmt"
 	"io"
+	"mime"
 	"os"
 	"os/exec"
 	"path/filepath"
@@ -28,6 +29,8 @@ var c20Files = map[string]string{
 	"g2.xml":         "<doc><a>alpha</a><a>beta</a><b><a>gamma</a></b></doc>",
 	"g3.xml":         "<r><!-- c\nd --><?pi a\nb?><a>x</a></r>",
 	"g4.xml":         "<r><e/><e>two</e><e a=\"\">three</e><!----><a></a><a>last</a></r>",
+	"picture.svg":    "<svg xmlns=\"http://www.w3.org/2000/svg\"><title>logo</title><a>in svg</a></svg>",
+	"page.xhtml":     "<html xmlns=\"http://www.w3.org/1999/xhtml\"><body><a>in xhtml</a></body></html>",
 	"g6.xml":         "<r><a>made by &corp; in 2020</a><a k=\"&corp;\">x&nbsp;y&amp;z</a></r>",
 	"g5%d.xml":       "<r p=\"5%\"><a>100% d%s %v%%</a><!--%d--><?pi %s?><a>%</a></r>",
 	"d.json":         `{"a": [1, 2.5, "x"], "b": {"a": true}}`,
@@ -84,20 +87,33 @@ func (f c20Flags) args() []string {
 
 var c20Exprs = []string{"/*", "//a", "//@*", "//text()", "//comment()", "//processing-instruction()", "count(//*)", "string(//@*)", "//nosuch", "1 = 1", "//p:b", "$v", "concat($v, '!', count(//a))", "//namespace::*", "//a | //b", "/", "//a/ancestor::*", "//*[last()]", "((", "//e", "//*[not(node())]", "//@a | //e", "//comment() | //a", "//e[1]", "concat('5%', 'd')"}
 
-// c20Type mirrors the documented type detection: -t, else the extension's media type.
+// c20Type is the documented type detection: -t, else the media type of the
+// file's extension (Go's mime table, as on the machine the tool runs on): XML
+// for the subtype xml or a +xml structured-syntax suffix (RFC 7303), likewise
+// JSON (RFC 6839), HTML for the subtype html.
 func c20Type(path string, flagT string) (string, string) {
 	if flagT != "" {
 		return flagT, ""
 	}
-	switch strings.ToLower(filepath.Ext(path)) {
-	case ".xml":
-		return "xml", ""
-	case ".html", ".htm":
-		return "html", ""
-	case ".json":
-		return "json", ""
-	case "":
+	ext := filepath.Ext(path)
+	if ext == "" {
 		return "", "no media type"
+	}
+	mt, _, err := mime.ParseMediaType(mime.TypeByExtension(ext))
+	if err != nil || mt == "" {
+		return "", "no media type"
+	}
+	sub := mt
+	if i := strings.IndexByte(mt, '/'); i >= 0 {
+		sub = mt[i+1:]
+	}
+	switch {
+	case sub == "xml" || strings.HasSuffix(sub, "+xml"):
+		return "xml", ""
+	case sub == "html":
+		return "html", ""
+	case sub == "json" || strings.HasSuffix(sub, "+json"):
+		return "json", ""
 	}
 	return "", "unsupported media type"
 }
@@ -374,6 +390,7 @@ func C20(c *run.Check) {
 		{"missing file", []string{"nope.xml", "g2.xml"}, ""},
 		{"newlines in comments and PIs", []string{"g3.xml", "g2.xml"}, ""},
 		{"first selected node has an empty string value", []string{"g4.xml", "g1.xml"}, ""},
+		{"structured-syntax media types (+xml)", []string{"picture.svg", "page.xhtml", "g2.xml"}, ""},
 		{"percent signs in file names and values", []string{"g5%d.xml", "g2.xml"}, ""},
 		{"entity references (bound with -e, unknown, non-strict)", []string{"g6.xml", "g2.xml"}, ""},
 	}
